@@ -85,9 +85,17 @@ def cli_check(name, assertions, timeout_s, workdir=None, script=None):
     return Result("unknown", name, dt, detail=(out + " " + err)[:300])
 
 
+# z3 4.8.12 (the Debian package) answered `unsat` on a satisfiable problem with quantified hypotheses over sequences
+# (found with seeded change C05-1: cvc5 exhibits a model of an equivalent restricted problem).  Its `unsat` is therefore
+# NOT accepted on scripts that contain quantifiers unless another solver confirms it; on quantifier-free scripts and
+# for `sat` answers it is used like the others.
+DISTRUST_UNSAT_WITH_QUANTIFIERS = {"z3-4.8"}
+
+
 def cli_race(script, timeout_s, workdir=None, wait_all=False):
     """Run all command-line solvers concurrently on one script; first definite answer wins
     (the others are killed) unless wait_all."""
+    quantified = ("(forall " in script) or ("(exists " in script)
     fd, path = tempfile.mkstemp(suffix=".smt2", dir=workdir)
     with os.fdopen(fd, "w") as f:
         f.write(script)
@@ -109,7 +117,10 @@ def cli_race(script, timeout_s, workdir=None, wait_all=False):
                     out, err = p.communicate()
                     first = out.strip().splitlines()[0].strip() if out.strip() else ""
                     dt = time.time() - t0
-                    if first in ("sat", "unsat"):
+                    if first == "unsat" and quantified and name in DISTRUST_UNSAT_WITH_QUANTIFIERS:
+                        results[name] = Result("unknown", name, dt, detail="unsat by %s alone on a quantified problem: not accepted "
+                                                                              "(known unsoundness of that version)" % name)
+                    elif first in ("sat", "unsat"):
                         results[name] = Result(first, name, dt)
                     else:
                         results[name] = Result("unknown", name, dt, detail=(out + " " + err).strip()[:300])
